@@ -270,3 +270,140 @@ func aliasSteps(c pCase, baseline map[pKey]string, r *Rng) []Step {
 		Tags: []string{"alias:frame", fmt.Sprintf("alias-resolutions:%d", resolutions/20*20)}})
 	return steps
 }
+
+// ---- permuted index orders over the same index objects (C08: the answer is a function of the ORDERED index list) ----
+//
+// Among candidates that compare equal (same name, version, priority carried by two repositories) the index listed
+// first wins, so `[A,B]` and `[B,A]` are different inputs with different answers.  Every architecture gets a mirror of
+// its first repository (twin packages: same name+version+priority, another URL); the same index OBJECTS are then
+// handed to NewPkgResolver / GetPackagesWithDependencies in permuted orders within one process, and every answer —
+// which identifies the chosen repository — is compared with the fresh-state answer for ITS order (all caches reset,
+// new objects), which in turn is compared with Impl.resolve over the universe in that order.
+
+func withMirror(a rArch) rArch {
+	out := rArch{Arch: a.Arch, Indexes: append([]rIndex(nil), a.Indexes...)}
+	if len(a.Indexes) == 0 {
+		return out
+	}
+	m := rIndex{Pin: a.Indexes[0].Pin, URI: strings.Replace(a.Indexes[0].URI, "://", "://mirror-", 1), Pkgs: append([]rPkg(nil), a.Indexes[0].Pkgs...)}
+	out.Indexes = append(out.Indexes, m)
+	return out
+}
+
+func permArch(a rArch, perm []int) rArch {
+	out := rArch{Arch: a.Arch}
+	for _, j := range perm {
+		out.Indexes = append(out.Indexes, a.Indexes[j])
+	}
+	return out
+}
+
+// identify: "ok 3,5|…" in the numbering of `a` -> "ok <uri>#k,<uri>#k|…"
+func identify(a rArch, ans string) string {
+	if !strings.HasPrefix(ans, "ok ") {
+		return ans
+	}
+	body, rest, _ := strings.Cut(ans[3:], "|")
+	var names []string
+	id := 0
+	for _, ix := range a.Indexes {
+		for k := range ix.Pkgs {
+			names = append(names, fmt.Sprintf("%s#%d", ix.URI, k))
+			_ = k
+			id++
+		}
+	}
+	var out []string
+	if body != "" {
+		for _, s := range strings.Split(body, ",") {
+			var n int
+			fmt.Sscan(s, &n)
+			if n >= 0 && n < len(names) {
+				out = append(out, names[n])
+			} else {
+				out = append(out, "?"+s)
+			}
+		}
+	}
+	return "ok " + strings.Join(out, ",") + "|" + rest
+}
+
+func orderSteps(c pCase, r *Rng) []Step {
+	var steps []Step
+	var diverged []string
+	total := 0
+	for f, fam := range c.Families {
+		var worlds []int
+		for w := range c.Worlds {
+			if w < len(c.WorldFam) && c.WorldFam[w] == f {
+				worlds = append(worlds, w)
+			}
+		}
+		for ai := range fam {
+			a := withMirror(fam[ai])
+			n := len(a.Indexes)
+			if n < 2 {
+				continue
+			}
+			ident := make([]int, n)
+			rev := make([]int, n)
+			rot := make([]int, n)
+			for i := range ident {
+				ident[i], rev[i], rot[i] = i, n-1-i, (i+1)%n
+			}
+			perms := [][]int{ident, rev}
+			if n > 2 {
+				perms = append(perms, rot)
+			}
+			// fresh-state answers, per order
+			fresh := make([]map[int]string, len(perms))
+			for pi, perm := range perms {
+				fresh[pi] = map[int]string{}
+				pa := permArch(a, perm)
+				for _, w := range worlds {
+					apk.VerifResetGlobalCaches()
+					ans := resolveBuilt([]builtArch{buildArch(pa)}, 0, c.Worlds[w], false)
+					fresh[pi][w] = identify(pa, ans)
+					fields := append([]string{"r.corr", xl(c.Worlds[w]), xs(pa.Arch)}, encodeArchs([]rArch{pa})...)
+					fields = append(fields, ans)
+					steps = append(steps, Step{Line: strings.Join(fields, "\t"), Go: ans, Mode: "verdict", Trivial: ans == "err",
+						Desc: fmt.Sprintf("index order %v with a mirror of the first repository: %s", perm, describeCase(rCase{Archs: []rArch{pa}, World: c.Worlds[w]}, 0)),
+						Tags: []string{"order-fresh:" + strings.SplitN(ans, " ", 2)[0]}})
+				}
+			}
+			// one process, the same index objects, permuted orders
+			apk.VerifResetGlobalCaches()
+			base := buildArch(a)
+			seq := []int{0, 1, 0}
+			if len(perms) > 2 {
+				seq = []int{0, 2, 1, 0, 2}
+			}
+			if r.Bool() {
+				seq[0], seq[1] = seq[1], seq[0]
+			}
+			for si, pi := range seq {
+				idx := make([]apk.NamedIndex, n)
+				for i, j := range perms[pi] {
+					idx[i] = base.indexes[j]
+				}
+				for _, w := range worlds {
+					b := builtArch{arch: base.arch, indexes: idx, ids: base.ids}
+					got := identify(a, resolveBuilt([]builtArch{b}, 0, c.Worlds[w], false))
+					total++
+					if got != fresh[pi][w] && len(diverged) < 5 {
+						diverged = append(diverged, fmt.Sprintf("family %d arch %s world %d: index order %v (call %d of the sequence %v over the same index objects): fresh=%s got=%s",
+							f, a.Arch, w, perms[pi], si, seq, fresh[pi][w], got))
+					}
+				}
+			}
+		}
+	}
+	out := "consistent"
+	if len(diverged) > 0 {
+		out = "diverged: " + diverged[0]
+	}
+	steps = append(steps, Step{Line: "p.order", Go: out,
+		Desc: fmt.Sprintf("%d resolutions over the same index objects in permuted orders (every architecture with a mirror of its first repository), each against the fresh-state answer for its order", total),
+		Tags: []string{"order:" + strings.SplitN(out, ":", 2)[0]}})
+	return steps
+}
